@@ -76,10 +76,21 @@ def serial(fam, m):
         return m.to_json()
     except Exception as e:  # noqa
         try:
-            return "TOJSON-EXC:%s:" % exn_name(e) + json.dumps(
-                {"inner": m.model.model.json(), "unc": m._autocorr_unc_vars}, default=str, sort_keys=True)
+            if fam == "Hourly":
+                hs = hourly_state(m)
+                doc = {"temporal_clusters": hs.get("table"), "ts_features": hs.get("ts"), "categorical_features": hs.get("cat"),
+                       "info": {"warnings": hs.get("warnings")}}
+            else:
+                doc = {"inner": m.model.model.json(), "unc": m._autocorr_unc_vars}
+            return "TOJSON-EXC:%s:" % exn_name(e) + json.dumps(doc, default=str, sort_keys=True)
         except Exception:  # noqa
             return "TOJSON-EXC:%s:" % exn_name(e)
+
+
+def _doc(js):
+    if js.startswith("TOJSON-EXC:"):
+        return json.loads(js.split(":", 2)[2] or "{}"), True
+    return json.loads(js), False
 
 
 def warn_digest(ws):
@@ -129,9 +140,26 @@ def json_fields_changed(a, b, depth=2):
     if a == b:
         return []
     try:
-        x, y = json.loads(a), json.loads(b)
+        (x, fx), (y, fy) = _doc(a), _doc(b)
     except Exception:  # noqa
         return ["<unparseable>"]
+    if fx != fy:
+        # one side is the reduced document used when to_json() raises: compare what both show, by content
+        full, red = (y, x) if fx else (x, y)
+        out = []
+        if "temporal_clusters" in red:
+            t1 = [[int(r[0]), int(r[1]), None if (r[2] is None or r[2] != r[2]) else int(r[2])] for r in full.get("temporal_clusters", [])]
+            t2 = [[r[0], r[1], r[2]] for r in (red.get("temporal_clusters") or [])]
+            if t1 != t2:
+                out.append("temporal_clusters")
+            if list(full.get("ts_features", [])) != list(red.get("ts_features") or []):
+                out.append("ts_features")
+            if list(full.get("categorical_features", [])) != list(red.get("categorical_features") or []):
+                out.append("categorical_features")
+            w1 = [w.get("qualified_name") for w in full.get("info", {}).get("warnings", [])]
+            if w1 != list((red.get("info") or {}).get("warnings") or []):
+                out.append("info.warnings")
+        return out or ["<to_json raises>"]
     out = []
 
     def rec(u, v, path, d):
@@ -186,6 +214,8 @@ def new_model(fam, profile):
         return M(settings={"cvrmse_threshold": 1e-6, "pnrmse_threshold": 1e-6})
     if fam == "Hourly" and profile == "ghi":
         return M(settings={"train_features": ["temperature", "ghi"]})
+    if fam == "Hourly" and profile == "supp":
+        return M(settings={"supplemental_time_series_columns": ["occ"]})
     return M()
 
 
@@ -213,8 +243,28 @@ def caller_copy(spec):
     """fresh caller-owned inputs for a constructor spec (deep copies of the pristine templates)"""
     out = []
     for n in spec["src"]:
-        out.append(None if n is None else TPL[n].copy(deep=True))
+        out.append(None if n is None else private_copy(n))
     return out
+
+
+TPL_FREQ = {}
+
+
+def private_copy(name):
+    """a copy of a template that shares nothing with it: DataFrame.copy() shares the index array (and with it the freq
+    attribute), so the index is copied separately and gets the freq the template was created with"""
+    t = TPL[name]
+    if name not in TPL_FREQ:
+        TPL_FREQ[name] = getattr(t.index, "freq", None)
+    c = t.copy(deep=True)
+    if isinstance(t.index, pd.DatetimeIndex):
+        idx = t.index.copy(deep=True)
+        try:
+            idx.freq = TPL_FREQ[name]
+        except Exception:  # noqa
+            pass
+        c.index = idx
+    return c
 
 
 def _add_obj(fam, name, spec, role, span, observed=True, ghi=False, problems=None):
@@ -254,7 +304,7 @@ def build_world(seed, quick=True):
     """templates, data objects of the four families; returns a list of construction problems"""
     rng = random.Random(seed)
     problems = []
-    TPL.clear(); OBJ.clear(); SPECS.clear(); MODELS.clear(); REF.clear(); OBJ_ORDER.clear()
+    TPL.clear(); TPL_FREQ.clear(); OBJ.clear(); SPECS.clear(); MODELS.clear(); REF.clear(); OBJ_ORDER.clear()
     tz = "US/Pacific"
 
     def spec(cls, ctor, src, elec=True):
@@ -263,6 +313,8 @@ def build_world(seed, quick=True):
     # ---------------- daily
     for k, nm in enumerate(["base", "other1", "other2"]):
         TPL["D." + nm] = F.daily_frame(rng, tz=tz, base=20.0 + 6 * k, bh=1.2 - 0.2 * k, bc=0.8 + 0.3 * k)
+        if nm == "other2":
+            TPL["D." + nm].iloc[rng.sample(range(365), 4), 0] = 0.0        # zero readings of an electricity meter
         _add_obj("Daily", "D." + nm, spec("DailyBaselineData", "init", ["D." + nm]), "baseline", "full year", problems=problems)
     noisy = F.daily_frame(rng, tz=tz, noise=0.6)
     TPL["D.noisy"] = noisy
@@ -333,6 +385,8 @@ def build_world(seed, quick=True):
     # ---------------- hourly
     for k, nm in enumerate(["base", "other1"]):
         TPL["H." + nm] = F.hourly_frame(rng, tz=tz, scale=1.0 + 0.5 * k)
+        if nm == "other1":
+            TPL["H." + nm].iloc[rng.sample(range(365 * 24), 8), 0] = 0.0
         _add_obj("Hourly", "H." + nm, spec("HourlyBaselineData", "init", ["H." + nm]), "baseline", "full year", problems=problems)
     TPL["H.base_ghi"] = F.hourly_frame(rng, tz=tz, ghi=True)
     _add_obj("Hourly", "H.base_ghi", spec("HourlyBaselineData", "init", ["H.base_ghi"]), "baseline", "full year", ghi=True,
@@ -357,6 +411,13 @@ def build_world(seed, quick=True):
             TPL["H.rep_" + key + "_ghi"] = sl.copy()
             _add_obj("Hourly", "H.rep_" + key + "_ghi", spec("HourlyReportingData", "init", ["H.rep_" + key + "_ghi"]),
                      "reporting", span, ghi=True, problems=problems)
+
+    # a column the settings of the "supp" profile declare as supplemental time series, absent from the baseline
+    occ = hrep.iloc[d0 * 24:(d0 + 7) * 24][["observed", "temperature"]].copy()
+    occ["occ"] = (occ.index.hour >= 8).astype(float)
+    TPL["H.rep_1weekb_occ"] = occ
+    _add_obj("Hourly", "H.rep_1weekb_occ", spec("HourlyReportingData", "init", ["H.rep_1weekb_occ"]), "reporting", "1 week b",
+             problems=problems)
 
     # ---------------- CalTRACK hourly
     cb = F.hourly_frame(rng, tz=tz)
@@ -391,7 +452,7 @@ def build_world(seed, quick=True):
 
 
 MAIN_BASE = {"Daily": "D.base", "Billing": "B.base", "Hourly": "H.base", "Caltrack": "C.base"}
-PROFILES = {"Daily": ["default"], "Billing": ["default"], "Hourly": ["default", "ghi"], "Caltrack": ["default"]}
+PROFILES = {"Daily": ["default"], "Billing": ["default"], "Hourly": ["default", "ghi", "supp"], "Caltrack": ["default"]}
 
 
 def fit_main(fam, profile):
@@ -671,11 +732,12 @@ def run_history(job):
                     expect_changed.add("%s:%d" % (where, k))
                     expect_changed.add("%s:%d:meta" % (where, k))
                     if where == "H" and pool[k].get("alias_of"):
-                        expect_changed.add(pool[k]["alias_of"] + ":frame")      # already reported at the hand-out
-                        for k2, H2 in enumerate(hands):
-                            if H2["v"] is pool[k]["v"]:
-                                expect_changed.add("H:%d" % k2)
-                    mutate_in_place(pool[k]["v"], how)
+                        # the hand-out IS the object's frame (reported at the hand-out): writing into it would damage
+                        # the data object for the rest of the run
+                        rec["skipped"] = True
+                        rec["alias_target"] = True
+                    else:
+                        mutate_in_place(pool[k]["v"], how)
             else:
                 rec["skipped"] = True
         except Exception as e:  # noqa
@@ -688,25 +750,28 @@ def run_history(job):
         unexpected = [k for k in changed if k not in expect_changed]
         rec["js_changed"] = (js_new != js) and kind != "reload"
         rec["js_fields"] = json_fields_changed(js, js_new) if rec["js_changed"] else []
-        if js_new.startswith("TOJSON-EXC") and not js.startswith("TOJSON-EXC"):
-            rec["js_fields"] = ["to_json raises " + js_new.split(":")[1]]
-        elif rec["js_changed"] and js_new.startswith("TOJSON-EXC"):
-            rec["js_fields"] = json_fields_changed(js.split(":", 2)[2], js_new.split(":", 2)[2])
+        if rec["js_changed"] and js_new.startswith("TOJSON-EXC") and not js.startswith("TOJSON-EXC"):
+            rec["to_json_raises"] = js_new.split(":")[1]
+            rec["js_fields"] = [("to_json raises " + js_new.split(":")[1]) if f == "<to_json raises>" else f for f in rec["js_fields"]]
         rec["state_vs_ref"] = json_fields_changed(js_ref, js) if (kind == "predict" and js != js_ref) else []
         if kind == "hourly_state" or fam == "Hourly":
             rec["hstate"] = hourly_state(obj)
         # ---------------- literal oracle
         if rec["js_changed"]:
-            fail({"call": call, "broken": "serialised form changed", "fields": ",".join(rec["js_fields"])},
-                 "to_json() differs before/after %s (%s): %s" % (kind, rec.get("dataset", ""), ",".join(rec["js_fields"])), step)
+            for fld in rec["js_fields"]:
+                fail({"call": call, "broken": "serialised form changed", "field": fld},
+                     "to_json() differs before/after %s%s: %s%s" % (
+                         kind, (" (" + rec["dataset"] + ")") if "dataset" in rec else "", fld,
+                         (" (and to_json now raises %s)" % rec["to_json_raises"]) if "to_json_raises" in rec else ""), step)
         if kind == "reload" and js_new != mm["json_reloaded"] and js == js_ref:
             fail({"call": call, "broken": "reload of an unchanged model differs from a fresh reload"},
                  "from_json(to_json()) of an unchanged object does not serialise like a fresh reload", step)
         if kind == "predict" and rec.get("ref") is not None and rec["pred"] != rec["ref"]:
-            st = ",".join(rec["state_vs_ref"]) or "not visible in to_json"
-            fail({"call": call, "broken": "prediction depends on history", "state": st},
-                 "predict(%s) after this history differs from predict on a fresh copy (model state differs in: %s)" % (
-                     rec["dataset"], st), step)
+            cause = [f for f in rec["state_vs_ref"] if f != "info.warnings"] or rec["state_vs_ref"] or ["not visible in to_json"]
+            for st in cause:
+                fail({"call": call, "broken": "prediction depends on history", "state": st},
+                     "predict(%s) after this history differs from predict on a fresh copy (model state differs in: %s)" % (
+                         rec["dataset"], ",".join(cause)), step)
         for k in unexpected:
             part = k.split(":")
             if part[0] == "R" and part[-1] == "meta":
@@ -729,7 +794,8 @@ def run_history(job):
                      "%s changed the %s of data object %s" % (call, what, oname), step)
         snap, js = new, js_new
         trace.append(rec)
-    return {"trace": trace, "fails": fails, "h0": h0}
+    damaged = any(k.startswith("O:") for r in trace for k in r["changed"])
+    return {"trace": trace, "fails": fails, "h0": h0, "damaged": damaged}
 
 
 def hourly_state(m):
